@@ -685,6 +685,17 @@ def is_nontrivial(ops):
 # functions, dotted imports, underscore names, relative imports) - direct evaluator only
 # --------------------------------------------------------------------------------------------
 
+def match_f70(seq, la, fa, i):
+    """an enclosing __init__.py (edits 0, 1 of the scenario) was created after a request"""
+    first_req = min([k for k, x in enumerate(seq) if x >= 0] or [len(seq)])
+    return any(x < 0 and (-1 - x) in (0, 1) and k > first_req for k, x in enumerate(seq))
+
+
+def match_f89(seq, la, fa, i):
+    """a new project raises SyntaxError where the long-lived one answers from the half-built scope"""
+    return fa[i] == ['exception', 'SyntaxError'] and la[i][0] != 'exception'
+
+
 RAW_SCENARIOS = [
     {'name': 'inheritance',
      'files': {'@c.py': 'class Base:\n    x = 1\n    def m(self):\n        self.inst_attr = 1\n',
@@ -730,11 +741,21 @@ RAW_SCENARIOS = [
                   ('lint', 'from .a import *\nprint(X)\n', '@main.py'),
                   ('location', 'from ...a import X\nX', '@pkg/sub/e.py')],
      'edits': [('@pkg/a.py', 'class X:\n    from_pkg2 = 1\n'), ('@other/a.py', None)]},
+    # a request that raises: go to definition through `from broken import x` where broken.py has a syntax
+    # error (SyntaxError, for a fresh project too) after the star imports of the buffer were resolved; then an
+    # edit two imports away; then ordinary requests. Nothing validated during the failed request may survive it.
+    {'name': 'request-raises-on-a-module-with-a-syntax-error', 'finding': 'F89', 'finding_match': match_f89,
+     'files': {'@mid.py': 'from @leaf import *\nimport @leaf\n', '@leaf.py': 'alpha = 1\n', '@broken.py': 'def f(:\n'},
+     'requests': [('assist', 'from @mid import *\n'), ('assist', 'import @mid\n@mid.@leaf.'),
+                  ('location', 'from @mid import *\nfrom @mid import *\nfrom @broken import x\nx'),
+                  ('lint', 'from @mid import *\nprint(alpha, beta)\n')],
+     'edits': [('@leaf.py', 'beta = 2\n'), ('@leaf.py', 'alpha = 1\nbeta = 2\n'), ('@broken.py', 'x = 1\n')],
+     'extra_seqs': [[0, 2, -1, 0], [0, 1, 2, -1, 0, 1, 3, 2, -2, 3, 0]]},
     # the __init__.py of an ENCLOSING directory is created after relative imports below it were normalised:
     # pkg/sub is a package whose parent pkg is not one yet; dir/x.py does a relative import in a directory
     # that is not a package yet (module creation is inside the property; removing __init__.py is not).
     # Unfixed on the pinned tree = finding F70 (Project._norm_cache is never re-validated).
-    {'name': 'enclosing-package-created-later', 'finding': 'F70', 'finding_edits': (0, 1),
+    {'name': 'enclosing-package-created-later', 'finding': 'F70', 'finding_match': match_f70,
      'files': {'@pkg/sub/__init__.py': '', '@pkg/sub/a.py': 'class X:\n    attr = 1\n',
                '@dir/x.py': 'from .y import Z\n', '@dir/y.py': 'class Z:\n    zattr = 1\n'},
      'requests': [('assist', 'from .a import X\nX.', '@pkg/sub/e.py'),
@@ -815,6 +836,8 @@ def _raw_worker(args):
 def raw_jobs(ctx, token, maxlen):
     jobs = []
     for si, sc in enumerate(RAW_SCENARIOS):
+        for seq in sc.get('extra_seqs', ()):
+            jobs.append((ctx.scratch, token, si, list(seq)))
         alphabet = list(range(len(sc['requests']))) + [-1 - k for k in range(len(sc['edits']))]
         for n in range(2, maxlen + 1):
             for seq in itertools.product(alphabet, repeat=n):
@@ -900,15 +923,22 @@ def _worker(args):
     return run_history(base, h, token)
 
 
-def run_all(ctx, histories, token):
-    """real code on every history, in forked worker processes (results do not depend on scheduling)"""
+def bounded_map(ctx, fn, jobs):
+    """fn over jobs in forked worker processes (results do not depend on scheduling), with a deadline: real
+    code that hangs ends the check with an exception, which the entry point reports as a VIOLATION"""
     import multiprocessing
-    jobs = [(ctx.scratch, token, h) for h in histories]
-    n = max(1, min(NCPU // 2, 8))
-    if len(jobs) < 50 or n == 1:
-        return [_worker(j) for j in jobs]
-    with multiprocessing.get_context('fork').Pool(n) as pool:
-        return pool.map(_worker, jobs, chunksize=16)
+    deadline = ctx.pick(400, 1500)
+    with multiprocessing.get_context('fork').Pool(max(1, min(NCPU // 2, 8))) as pool:
+        try:
+            return pool.map_async(fn, jobs, chunksize=16).get(timeout=deadline)
+        except multiprocessing.TimeoutError:
+            pool.terminate()
+            raise RuntimeError('the real code did not finish %d histories within %d s (hang?)' % (len(jobs), deadline))
+
+
+def run_all(ctx, histories, token):
+    """real code on every history"""
+    return bounded_map(ctx, _worker, [(ctx.scratch, token, h) for h in histories])
 
 
 def outside_domain(h):
@@ -1041,9 +1071,9 @@ def run(ctx):
     # ---- raw scenarios (direct only) ----------------------------------------------------------------------
     import multiprocessing
     rjobs = raw_jobs(ctx, token, ctx.pick(3, 4))
-    with multiprocessing.get_context('fork').Pool(max(1, min(NCPU // 2, 8))) as pool:
-        rres = pool.map(_raw_worker, rjobs, chunksize=16)
+    rres = bounded_map(ctx, _raw_worker, rjobs)
     nraw_bad = nfinding = 0
+    pending = []
     for (_b, _t, si, seq), (la, fa) in zip(rjobs, rres):
         ctx.count(('raw', si, tuple(seq)), nontrivial=True)
         ctx.histogram('origin', 'raw:' + RAW_SCENARIOS[si]['name'])
@@ -1051,17 +1081,19 @@ def run(ctx):
             ctx.histogram('answer_kind', 'raw-' + a[0])
         i = first_difference(la, fa)
         sc = RAW_SCENARIOS[si]
-        if i is not None and sc.get('finding') and fixed_status(ctx, sc['finding']) != 'fixed':
-            # attributed to the finding only if an enclosing __init__.py was created after a request
-            # (the signature of the finding); anything else in this scenario is reported as usual
-            first_req = min([k for k, x in enumerate(seq) if x >= 0] or [len(seq)])
-            if any(x < 0 and (-1 - x) in sc['finding_edits'] and k > first_req for k, x in enumerate(seq)):
-                nfinding += 1
-                if seq == [0, -1, 0]:
-                    ctx.known_finding(sc['finding'], 'after `from .a import X` was resolved in pkg/sub (pkg not a package yet), '
-                                      'creating pkg/__init__.py is not noticed: long-lived %r, fresh %r (Project._norm_cache '
-                                      'is never re-validated; fixes/F70_norm_cache_not_revalidated.patch)' % (la[i], fa[i]))
-                continue
+        if i is not None and sc.get('finding') and fixed_status(ctx, sc['finding']) != 'fixed' \
+                and sc['finding_match'](seq, la, fa, i):
+            # a defect of the unchanged tree with a proposed fix (fixes/<id>_*.patch): attributed to it only by
+            # the signature of that defect; KNOWN-FINDING is printed only while known_findings.json lists it as
+            # open; once it is listed as fixed the same inputs are ordinary violations
+            nfinding += 1
+            if fixed_status(ctx, sc['finding']) == 'open':
+                ctx.known_finding(sc['finding'], 'raw scenario %r %r: long-lived %r, fresh %r' % (sc['name'], seq, la[i], fa[i]))
+            elif sc['finding'] not in pending:
+                pending.append(sc['finding'])
+                ctx.log('pending finding %s (fix proposed, not listed in known_findings.json yet): raw scenario %r %r: '
+                        'long-lived %r, fresh %r' % (sc['finding'], sc['name'], seq, la[i], fa[i]))
+            continue
         if i is not None:
             nraw_bad += 1
             if nraw_bad <= 2:
@@ -1071,6 +1103,7 @@ def run(ctx):
     cov['raw_histories'] = len(rjobs)
     cov['raw_direct_disagreements'] = nraw_bad
     cov['raw_histories_attributed_to_open_findings'] = nfinding
+    cov['pending_findings_seen'] = pending
     ctx.log('raw scenarios: %d histories, %d disagreements' % (len(rjobs), nraw_bad))
 
     # ---- (I)/(R): the model evaluated inside Coq on the same histories ------------------------------
